@@ -6,6 +6,7 @@ CLAIMS = {
  "C04": ("symbolic execution of EvalExpression/Operator/Var (LLVM IR) vs. reference evaluator; Z3 decides every path", "1 (C04)"),
  "C05": ("symbolic execution of the real two-pass assembler on directive templates with symbolic operand values; Z3 decides placement/range/frame assertions", "1 (C05)"),
  "C07": ("symbolic execution of disasm_<cpu> -> tokenizer/parse_instruction_<cpu> -> disasm_<cpu> on symbolic bytes; Z3 decides text/length/byte fixpoint assertions", "1 (C07)"),
+ "C09": ("differential symbolic execution of the real assembler on a program and its hand expansion with symbolic arguments; Z3 decides image equality", "1 (C09)"),
  "C10": ("symbolic execution of the real conditional-assembly code on templates with symbolic condition operands/operators vs. reference evaluator; Z3 decides branch selection", "1 (C10)"),
  "C08": ("symbolic execution of each disasm_<cpu>() over symbolic byte windows; Z3 decides length/termination/bounds/locality assertions", "1 (C08)"),
 }
